@@ -152,6 +152,28 @@ func errorLookedAt(fn *ssa.Function, def ssa.Instruction, v ssa.Value) (bool, st
 					seenPhi[y] = true
 					collect(y, depth+1)
 				}
+			case *ssa.Store:
+				// spilled into a local cell (named result / captured variable): what examines
+				// the loads that this store reaches examines the error
+				al, isLocal := y.Addr.(*ssa.Alloc)
+				if !isLocal || y.Val != x {
+					looks[r] = true
+					continue
+				}
+				otherStore := func(i ssa.Instruction) bool {
+					s2, ok := i.(*ssa.Store)
+					return ok && s2 != y && s2.Addr == ssa.Value(al)
+				}
+				for _, r2 := range core.Referrers(al) {
+					ld, ok := r2.(*ssa.UnOp)
+					if !ok || ld.Op != token.MUL || seenPhi[ld] || depth > 4 {
+						continue
+					}
+					if ok, _ := (core.PathQuery{Fn: fn, From: y, To: ld, Avoid: otherStore}).Exists(); ok {
+						seenPhi[ld] = true
+						collect(ld, depth+1)
+					}
+				}
 			default:
 				looks[r] = true
 			}
@@ -625,18 +647,84 @@ func c07_5(c *core.Ctx, p *core.Prog) {
 			}
 		}
 		c.Check(okDef, base+"|default", p.Pos(first.Cond.Pos()), core.FuncName(fn), "unknown payload types are rejected with an error", msg)
-		// duplicate main record: a `x != nil` test on a record-message φ/variable whose true arm returns an error, inside an arm
+		// every arm consumes the record it matched: on the way from the arm's entry back to the
+		// loop head (or to a return) the current record is used (handed to a decoder or kept)
+		var recElem ssa.Value // the loop element: load of &records[i]
+		core.EachInstr(fn, func(i ssa.Instruction) {
+			if u, ok := i.(*ssa.UnOp); ok && u.Op == token.MUL && recElem == nil {
+				if acc, ok := core.ElemAccessOf(u.X); ok && acc.Phi != nil && (acc.Base == ssa.Value(fn.Params[0]) || core.Canon(acc.Base) == ssa.Value(fn.Params[0])) {
+					recElem = u
+				}
+			}
+		})
+		if recElem != nil && loopPhi != nil {
+			usesRec := func(i ssa.Instruction) bool {
+				for _, op := range i.Operands(nil) {
+					if op != nil && *op == recElem {
+						// the PayloadType() call that feeds the switch does not count
+						if cl, ok := i.(*ssa.Call); ok {
+							if f := core.CalleeObj(cl); f != nil && f.Name() == "PayloadType" {
+								return false
+							}
+						}
+						return true
+					}
+				}
+				return false
+			}
+			for k, t := range tests {
+				first := t.Block().Succs[0].Instrs[0]
+				ignored := false
+				if t.Block().Succs[0] == loopPhi.Block() {
+					ignored = true // empty arm: straight back to the loop head
+				} else if !usesRec(first) {
+					if ok, _ := (core.PathQuery{Fn: fn, From: first, To: loopPhi, Avoid: usesRec}).Exists(); ok {
+						ignored = true
+					}
+				}
+				kv, _ := core.ConstInt(t.Cond.(*ssa.BinOp).Y)
+				c.Check(!ignored, fmt.Sprintf("%s|arm=%d", base, kv), p.Pos(t.Cond.Pos()), core.FuncName(fn), "the arm consumes the record it matched",
+					fmt.Sprintf("the arm for payload type %d (arm #%d) accepts the payload and ignores it: a record relabelled with this type — the main record included — is discarded while the batch is reported as decoded", kv, k+1))
+			}
+		}
+		// duplicate main record: the variable returned as the main record is assigned only after a
+		// `!= nil` test of it that returns an error
 		dup := 0
+		var mainPhis []ssa.Value
+		for _, r := range core.Returns(fn) {
+			if len(r.Results) < 2 {
+				continue
+			}
+			core.BackSlice(r.Results[1], func(v ssa.Value) bool {
+				if ph, ok := v.(*ssa.Phi); ok {
+					mainPhis = append(mainPhis, ph)
+				}
+				if _, isAl := v.(*ssa.Alloc); isAl {
+					mainPhis = append(mainPhis, v)
+				}
+				return true
+			})
+		}
+		isMain := func(v ssa.Value) bool {
+			for _, m := range mainPhis {
+				if v == m {
+					return true
+				}
+				if u, ok := v.(*ssa.UnOp); ok && u.Op == token.MUL && u.X == m {
+					return true
+				}
+			}
+			return false
+		}
 		for _, b := range fn.Blocks {
 			iff := core.IfOf(b)
 			if iff == nil {
 				continue
 			}
 			cmp, ok := iff.Cond.(*ssa.BinOp)
-			if !ok || cmp.Op != token.NEQ || !core.IsNilConst(cmp.Y) || core.TypePkgPath(cmp.X.Type()) != pkgRecordMsg {
+			if !ok || cmp.Op != token.NEQ || !core.IsNilConst(cmp.Y) || core.TypePkgPath(cmp.X.Type()) != pkgRecordMsg || !isMain(cmp.X) {
 				continue
 			}
-			// inside a switch arm (guarded by some test's true edge) and leading to a return
 			inArm := false
 			for _, t := range tests {
 				if core.GuardedBy(t, true, iff) {
@@ -656,8 +744,8 @@ func c07_5(c *core.Ctx, p *core.Prog) {
 				dup++
 			}
 		}
-		c.Check(dup >= 1, base+"|duplicate-main", p.Pos(fn.Pos()), core.FuncName(fn), fmt.Sprintf("%d arm(s) reject a second record of a kind that must be unique", dup),
-			"no arm rejects a second main record: with a duplicated main payload one of the two is silently discarded")
+		c.Check(dup >= 1, base+"|duplicate-main", p.Pos(fn.Pos()), core.FuncName(fn), "the arm that keeps the main record rejects a second one",
+			"the arm that keeps the main record does not reject a second main record: with a duplicated main payload one of the two is silently discarded (and the kept one may already be released by its reader)")
 	}
 	if n < 3 {
 		c.Undecided("count", "?", "", fmt.Sprintf("expected 3 RelatedDataFrom functions, found %d", n))
@@ -965,4 +1053,63 @@ func c07_7(c *core.Ctx, p *core.Prog) {
 		})
 	}
 	_ = sort.Strings
+}
+
+// ---------------- C07.6 ----------------
+
+func init() {
+	register("C07", &core.Rule{ID: "C07.6", Title: "decoder-side related-data stores are all initialised by their constructor", Mod: core.ModRoot, Floor: 3, Run: c07_6})
+}
+
+// c07_6: the decoders look related entities up in the stores of a RelatedData
+// value without nil tests (a dropped payload simply leaves a store empty), so
+// every pointer field of each */otlp.RelatedData must be set by the
+// constructor that RelatedDataFrom uses.
+func c07_6(c *core.Ctx, p *core.Prog) {
+	n := 0
+	for _, fn := range rootFuncs(c, p) {
+		if fn.Parent() != nil || !strings.HasSuffix(core.FnPkgPath(fn), "/otlp") || fn.Signature.Results().Len() != 1 {
+			continue
+		}
+		rt := fn.Signature.Results().At(0).Type()
+		named := core.NamedOf(rt)
+		if named == nil || named.Obj().Name() != "RelatedData" || named.Obj().Pkg().Path() != core.FnPkgPath(fn) {
+			continue
+		}
+		st, ok := named.Underlying().(*types.Struct)
+		if !ok {
+			continue
+		}
+		var al *ssa.Alloc
+		core.EachInstr(fn, func(i ssa.Instruction) {
+			if a, ok := i.(*ssa.Alloc); ok && a.Heap && core.NamedOf(a.Type()) == named {
+				al = a
+			}
+		})
+		if al == nil {
+			continue
+		}
+		n++
+		set := map[int]bool{}
+		for _, r := range core.Referrers(al) {
+			if fa, ok := r.(*ssa.FieldAddr); ok {
+				for _, r2 := range core.Referrers(fa) {
+					if s, ok := r2.(*ssa.Store); ok && s.Addr == ssa.Value(fa) && !core.IsNilConst(s.Val) {
+						set[fa.Field] = true
+					}
+				}
+			}
+		}
+		var missing []string
+		for k := 0; k < st.NumFields(); k++ {
+			if _, isPtr := st.Field(k).Type().Underlying().(*types.Pointer); isPtr && !set[k] {
+				missing = append(missing, st.Field(k).Name())
+			}
+		}
+		c.Check(len(missing) == 0, "ctor="+core.FuncName(fn), p.Pos(fn.Pos()), core.FuncName(fn), "every store of the related data is initialised",
+			fmt.Sprintf("store(s) %v of the decoder's related data are left nil by the constructor: when the corresponding payload is dropped from a batch the decoder dereferences the nil store and the consumer panics", missing))
+	}
+	if n < 3 {
+		c.Undecided("count", "?", "", fmt.Sprintf("expected 3 decoder-side RelatedData constructors, found %d", n))
+	}
 }
